@@ -137,7 +137,10 @@ def run_c06(res, tier):
     res.rule("SAFE-MAP", "execute / execute_limited / execute_unsafe select (limited, safe) = (false,true) / (true,true) / (false,false); "
              "interpreters without unchecked code do not override execute_unsafe", floor=8, what="entry points")
     iolim.run_mode_map(res, ast, "SAFE-MAP")
-    passes.run_c11(res, ast, rules=("WINDOW-BY-CONSTRUCTION",))
+    passes.run_c11(res, ast, rules=("WINDOW-BY-CONSTRUCTION", "TEMPS-BY-CONSTRUCTION"))   # the temporaries array is sized from Program.temps
+    import bcops
+    res.rule("LAYOUT-PAIR", "build_context and free_context use the same layout, with room for max(temps, 2) temporaries", floor=1, what="layout pairs")
+    bcops.run_layout_pair(res, ast, "LAYOUT-PAIR")
     import rt
     rt.run_tape_rules(res, ast, rules=("BOUNDS-GUARD", "TAPE-PAIR"))
     import grow
@@ -209,7 +212,8 @@ META = {
         technique="protocol rules (window entry, probe direction, checked/unchecked twins, mode map) on the syntax tree; abstract evaluation of the JIT's probe/extend template; visitor-completeness of the access-window computation; encoder width tables; polyhedral forward analysis of the growth arithmetic",
         claim="Decides the protocol that lets straight-line code touch [p+min, p+max] unchecked: every entry and re-establishment calls "
               "make_accessible(min, max+1) (WIN-ENTRY); moves probe the right edge with the moved pointer (PROBE-DIR, PROBE-DIR-JIT, PROBE-SEQ); the "
-              "window covers every cell operand by construction (WINDOW-BY-CONSTRUCTION); safe entry points never select unchecked code (SAFE-MAP); "
+              "window covers every cell operand by construction (WINDOW-BY-CONSTRUCTION); the temporaries array is sized from a count that exceeds every temporary "
+              "index (TEMPS-BY-CONSTRUCTION, LAYOUT-PAIR); safe entry points never select unchecked code (SAFE-MAP); "
               "memory operands have the cell's width (ASM-TABLE, SEL-WIDTH); JIT displacements are the repr(C) offsets (ABI-OFFSETS); the placement "
               "arithmetic of make_accessible puts the requested range and the whole old block inside the new block and moves the pointer with the contents "
               "(GROW-BOUNDS, assuming additions do not overflow isize/usize). Necessary conditions of C06.",
